@@ -21,7 +21,7 @@ LEVEL_TEXT = ("Seeded exploration: the four sort functions are observed on every
               "every rule on live lists; the allocation result is checked against the priority order.")
 LEVEL_NOTE = "Trusted: independent key functions in this module; sampling evidence only."
 PROBES = ["sort_calls_observed", "sort_calls_nontrivial", "director_sort_calls", "mw_match_exists", "hsv_missing_skill",
-          "tie_in_keys", "contention_step", "new_alloc_checked", "json_restart_sorts"]
+          "tie_in_keys", "contention_step", "new_alloc_checked", "json_restart_sorts", "backward_runs"]
 
 TASK_RULES = ["TSLACK", "EST", "SPT", "LPT", "FIFO", "LRPT", "SRPT", "LWRPT", "SWRPT"]
 RES_RULES = {-1: "MW", 0: "SSP", 1: "VC", 2: "HSV"}
@@ -39,7 +39,16 @@ def gen(rng, tier):
     spec = C.forward_spec(rng, tier, focus)
     spec["probe_steps"] = sorted(set(rng.randint(0, 12) for _ in range(3)))
     spec["json"] = rng.random() < 0.2
+    if rng.random() < 0.15:
+        spec["backward"] = True
     return spec
+
+
+def extra_candidates(spec):
+    if spec.get("backward") is not None:
+        c = dict(spec)
+        c.pop("backward")
+        yield c
 
 
 # ---- independent primary keys (ascending order expected) ---------------------------------------
@@ -206,8 +215,24 @@ def run(spec):
             director_sorts(res, rec.project, rec.ix, names[rot:] + names[:rot], wpids[::-1] if cur.t % 2 else wpids,
                            "Director-initiated at the 'updated' instant of step %d" % cur.t, cur.t)
 
-    tr = scen.run_forward(model, spec.get("ranks"), spec["cfg"], want_sorts=True, sort_keyfn=keyfn, on_phase=on_phase)
+    if spec.get("backward") is not None:
+        # the rule given to backward_simulate governs the allocation of its inner run in the same way
+        from .. import build as B
+        tr = scen.Trace()
+        tr.model, tr.cfg = model, spec["cfg"]
+        tr.built = B.build(model, spec.get("ranks"))
+        tr.project = tr.built.project
+        tr.absence = set(spec["cfg"].get("absence", []))
+        tr.rec, tr.out = scen.simulate(tr.project, spec["cfg"], want_sorts=True, sort_keyfn=keyfn, on_phase=on_phase,
+                                       backward={"due": False, "reverse": False})
+        tr.ix = tr.rec.ix
+        tr.history, tr.log_offset = None, 0
+    else:
+        tr = scen.run_forward(model, spec.get("ranks"), spec["cfg"], want_sorts=True, sort_keyfn=keyfn, on_phase=on_phase)
+        tr.history, tr.log_offset = None, 0
     base = C.base_result(tr)
+    if spec.get("backward") is not None:
+        res.count("backward_runs")
     for k, v in base.stats.items():
         res.count(k, v)
     res.steps = base.steps
